@@ -37,6 +37,7 @@ package tcell
 
 //@ func Color.RGB
 //@   arith bv
+//@   pure
 //@   ensures [invalid] c&ColorValid == 0 ==> result0 == -1 && result1 == -1 && result2 == -1
 //@   ensures [rgb] c&ColorValid != 0 && c&ColorIsRGB != 0 ==>
 //@              result0 == int32((c >> 16) & 0xff) && result1 == int32((c >> 8) & 0xff) && result2 == int32(c & 0xff)
@@ -63,3 +64,28 @@ package tcell
 //@   arith bv
 //@   ensures [exact] 0 <= index && index < 256 ==> result == (ColorValid | uint64(index))
 //@   ensures [valid] result&ColorValid != 0
+
+// FindColor: the result is a member of the palette and no member is strictly closer.
+// cdist is the distance exactly as the code computes it: components/255 through the (assumed)
+// CIE76 function of go-colorful, NaN mapped to +Inf.
+
+//@ spec chan01(v int32) float64 = float64(v) / 255.0
+//@ spec adjnan(d float64) float64 = isNaN(d) ? inf() : d
+//@ spec cdist(c Color, d Color) float64 = adjnan(cie76(
+//@        chan01(purecall("Color.RGB", 0, c)), chan01(purecall("Color.RGB", 1, c)), chan01(purecall("Color.RGB", 2, c)),
+//@        chan01(purecall("Color.RGB", 0, d)), chan01(purecall("Color.RGB", 1, d)), chan01(purecall("Color.RGB", 2, d))))
+
+//@ func FindColor
+//@   arith math
+//@   float fpuf
+//@   requires forall k int :: 0 <= k && k < len(palette) ==> palette[k] != ColorDefault
+//@   ensures [empty] len(palette) == 0 ==> result == ColorDefault
+//@   ensures [member] len(palette) > 0 ==> exists k int :: 0 <= k && k < len(palette) && result == palette[k]
+//@   ensures [optimal] forall k int :: 0 <= k && k < len(palette) ==> !(cdist(c, palette[k]) < cdist(c, result))
+//@   loop 1:
+//@     invariant [range] -1 <= rangeindex && rangeindex < len(palette)
+//@     invariant [sentinel] rangeindex == -1 ==> match == ColorDefault
+//@     invariant [member] rangeindex >= 0 ==> exists m int :: 0 <= m && m <= rangeindex && match == palette[m] && dist == cdist(c, palette[m])
+//@     invariant [best] forall k int :: 0 <= k && k <= rangeindex ==> !(cdist(c, palette[k]) < dist)
+//@     decreases len(palette) - rangeindex
+//@   modifies nothing
